@@ -282,6 +282,20 @@ func run(s *core.Shard) {
 			s.Nontrivial(c.Split.Key())
 		}
 	}
+	for i := 0; i < 64; i++ {
+		if !s.Mine(n + 48 + i) {
+			continue
+		}
+		if !s.Begin(fmt.Sprintf("emptied/%d", i)) {
+			continue
+		}
+		c := emptied(i)
+		if ok, _ := judge(s, c); ok {
+			s.Cover("carrier", c.Carrier)
+			s.Cover("focus", c.Focus)
+			s.Nontrivial(c.Split.Key())
+		}
+	}
 	for i := 0; i < n; i++ {
 		if !s.Mine(i) {
 			continue
